@@ -24,8 +24,8 @@ property's quantifier says "where tokens stay separated".
 through the *last token* (`IS`+`NOT` → `IsNot`, `NOT`+`IN` → `NotIn`, `:`+`:` → `::`), independent of any layout.
 
 The parser-level clauses of C20 (optional trailing semicolon, clause-order invariance, case-insensitive function /
-aggregate / type names) are decided on the implementation by the relation in `harness/src/c20.rs` until the parser
-theorems land; their section is at the end of this file.
+aggregate / type names) are theorems of `Props/C20Parse.lean` (audited with this file by `./check C20`); the relation
+in `harness/src/c20.rs` (text vs layout variant → same `Statement`, same output) additionally runs them on the code.
 -/
 namespace Sqlgrep.Props.C20
 open Sqlgrep Sqlgrep.Lex
@@ -150,11 +150,9 @@ example : exampleLayout.lexemes.map (·.tok Tables.asciiOnly) =
 example : tokens Tables.asciiOnly "x IS\nNOT NULL : -- c\n: :".toList =
     some [.ident ['x'], .kw .isNot, .null, .dcolon, .colon, .eof] := by decide
 
-/-! ## Parser-level clauses (to be added by the parser builders)
+/-! ## Parser-level clauses
 
-`trailing_semicolon`, `clause_order_invariance` (any permutation of the JOIN / WHERE / GROUP BY / HAVING / LIMIT clauses
-yields the same parse tree), `names_case_insensitive` (function, aggregate and type names, from the generated tables).
-Until these theorems exist the clauses are decided on the implementation by the C20 relation of
-`harness/src/c20.rs` (text vs layout variant → same `Statement`, same output). -/
+`Props/C20Parse.lean`: `trailing_semicolon`, clause-order invariance of the JOIN / WHERE / GROUP BY / HAVING / LIMIT
+clauses, and case-insensitive function / aggregate / type names (over the generated tables). -/
 
 end Sqlgrep.Props.C20
